@@ -48,7 +48,8 @@ func newRawEncoder(params *RawEncoderParams) *RawEncoder {
 func (e *RawEncoder) Encode(event *pipeline.Event, buf []byte) []byte {
 	node := event.Root.Dig(e.field)
 	if node == nil {
-		return buf[:0]
+		// nothing to add for this event; buf holds the events encoded before it
+		return buf
 	}
 	return node.Encode(buf)
 }
